@@ -335,7 +335,9 @@ def run(ctx) -> None:
     ocfg = ThreadCfg(P, follow_attrs=False, no_inline={"join", "is_alive", "BaseThread.start", "EventEmitter.stop"}, raising={r"(emitter|\$elem\(.*\))\.start": "Exception"})
     sp = Enumerator(ocfg).run(P.find_method("BaseObserver", "start"), selfcls="BaseObserver")
     failing = [p for p in sp if p.outcome[0] == "raise"]
-    okf = bool(failing) and all(any(e.kind == "call" and re.fullmatch(r"\$elem\(.*\)\.stop|emitter\.stop", e.extra.get("func", "")) for e in p.flat()) for p in failing)
+    okf = bool(failing) and all(any(e.kind == "call" and re.fullmatch(r"(\$elem\(.*\)|emitter)\.stop|self\._emitter_for_watch\[(\$elem\(.*\)|emitter)\.watch\]\.stop", e.extra.get("func", "")) for e in p.flat()) for p in failing)
+    # (the failed emitter may also be reached through the emitter map under its own watch: the map holds exactly the registered
+    # emitters under their watches -- C13/coherent-effects)
     ctx.check(okf, RH, "BaseObserver.start failure path stops the failed emitter", "an emitter whose start() raised is not stopped (its buffer thread and descriptors stay)", P.find_method("BaseObserver", "start").loc)
 
     # ---------------------------------------------------------------- ownership
@@ -357,6 +359,8 @@ def run(ctx) -> None:
 IC = "observers/inotify_c.py"
 IB = "observers/inotify_buffer.py"
 VARIANTS = [
+    dict(name="E start() failure drops the whole watch through unschedule()", expect="silent", edits=[("observers/api.py", "                self._remove_emitter(emitter)\n                raise", "                self.unschedule(emitter.watch)\n                raise")]),
+    dict(name="B start() failure leaves the failed emitter running", expect="fire", rule="C12/close-chain", edits=[("observers/api.py", "                self._remove_emitter(emitter)\n                raise", "                self._emitters.discard(emitter)\n                raise")]),
     dict(name="B _is_reading starts True (pre-fix leak)", expect="fire", rule="C12/fd-typestate", edits=[(IC, "        self._is_reading = False\n        try:\n            self._kill_r", "        self._is_reading = True\n        try:\n            self._kill_r")]),
     dict(name="B parse block does not re-check closed (pre-fix use after close)", expect="fire", rule="C12/fd-typestate", edits=[(IC, "            if self._closed:\n                # close() ran after the read completed and has released the descriptors:\n                # adding watches below would act on a closed (possibly re-used) fd.\n                return []\n\n", "")]),
     dict(name="B constructor without clean-up (pre-fix leak)", expect="fire", rule="C12/ctor-exception-safety", edits=[(IC, "        except BaseException:\n            # Nobody will ever call close() on a half-constructed instance.\n            self._close_resources()\n            raise\n", "        except BaseException:\n            raise\n")]),
